@@ -379,7 +379,7 @@ def main(argv=None):
         e = open_entries.get(sig, {})
         print('KNOWN-FINDING: property=%s %s [%s] (%d case(s) this run, e.g. %s)'
               % (prop_id, e.get('what', sig), e.get('id', '?'), n,
-                 short(known_examples.get(sig, ''), 160)))
+                 short(known_examples.get(sig, ''), 160).replace('\n', ' | ')))
 
     exhaustive = [p for p in prop.phases(tier) if p.kind == 'enumeration'
                   and getattr(p, 'exhaustive', True)]
